@@ -96,7 +96,7 @@ class Explorer:
             if c.target:
                 self.by_target[c.target] = c
         self.invariants = invariants
-        self.types = TypeParser(index, ['fpy2.number', 'fpy2.utils', 'fpy2', 'fpy2.ast', 'fpy2.analysis'])
+        self.types = TypeParser(index, ['fpy2.number', 'fpy2.utils', 'fpy2', 'fpy2.ast', 'fpy2.analysis', 'fpy2.number.context'])
         self.intrinsics = Intrinsics(self)
         self.global_cache = {}
         self.tags = Tags()
@@ -539,6 +539,7 @@ class Explorer:
         c = self.contracts[cname]
         self.current = c
         self.merge_light_only = bool(c.opts.get('split_heavy', False))
+        theory.EXTRA = set(c.opts.get('schemas', []))
         info = self.index.find_function(c.target) if c.target else None
         case = case or {}
         self.queue.clear()
